@@ -95,7 +95,7 @@ def Op.touches (k : Key) (a : Action) : Op → Bool
   | .cleanup _ => true
   | .checkOnly _ addr a' => decide (throttleKey addr = k ∧ a' = a)
   | .throttleOnly _ addr a' => decide (throttleKey addr = k ∧ a' = a)
-  | .par _ addr a' _ => decide (throttleKey addr = k ∧ a' = a)
+  | .par _ addr a' _ _ => decide (throttleKey addr = k ∧ a' = a)
 
 /-- Outcomes of the ops that concern key/action `(k, a)`, in order. -/
 def outsFor (k : Key) (a : Action) (st : State) : List Op → List Out
@@ -127,7 +127,7 @@ theorem step_frame (st : State) (op : Op) (k : Key) (a : Action) (h : op.touches
     unfold step throttle
     simp only [State.set]
     rw [if_neg]; intro ⟨h1, h2⟩; exact h h1.symm h2.symm
-  | par now addr a' n =>
+  | par now addr a' n dt =>
     apply step_par_frame
     simp [Op.touches] at h
     intro ⟨h1, h2⟩; exact h h1.symm h2.symm
@@ -158,11 +158,11 @@ theorem step_local (st st' : State) (op : Op) (k : Key) (a : Action)
     obtain ⟨rfl, rfl⟩ := h
     unfold step throttle
     simp [State.set, heq]
-  | par now addr a' n =>
+  | par now addr a' n dt =>
     simp [Op.touches] at h
     obtain ⟨rfl, rfl⟩ := h
-    obtain ⟨h1, h2⟩ := step_par_at st now addr a' n
-    obtain ⟨h1', h2'⟩ := step_par_at st' now addr a' n
+    obtain ⟨h1, h2⟩ := step_par_at st now addr a' n dt
+    obtain ⟨h1', h2'⟩ := step_par_at st' now addr a' n dt
     rw [h1, h2, h1', h2', heq]; exact ⟨rfl, rfl⟩
 
 /-- **Independence.** The outcomes seen by one address-key/action are the same
@@ -256,134 +256,201 @@ example : (run State.empty (tenFailures ++ [.attempt (s 10) addrA "HelloResume" 
 /-! ## 6. Concurrency
 
 The model is sequential: each op is one step.  What ties this to code that is called from many
-goroutines is regenerated on every run (`Generated/Throttle.lean`, `*Paths`): for every control-flow
-path of a method, the critical sections of the throttler's mutex it goes through, and which kinds of
-access to the failure table happen inside each.
+goroutines is regenerated on every run (`Generated/Throttle.lean`): for every control-flow path of a
+method, the critical sections of the throttler's mutex it goes through, and which kinds of access to the
+failure table happen inside each.
 
-* `addEntry` (hence `throttle`) reads the entry list and writes the extended list inside ONE
-  write-locked section on every path.  `C17_concurrent_failures_all_recorded` turns that into a
-  statement about all interleavings, `C17_concurrent_equals_sequential` into the step the model takes
-  (`throttle`, `par`), so the refinement theorems of section 2 (`C17_block_iff_window`, which covers
-  `par`) speak about concurrent failures as long as `C17_atomicity_facts` holds.
-* `cleanup`, `setEntries`, `getEntries`: one section each; no access to the table outside the mutex; no
-  write under the read lock; no other function touches the table.
-* `CheckBruteforce` is NOT one section: it reads the list under the read lock and, on some paths, writes
-  the pruned list back in a later write-locked section.  A failure recorded in between is lost exactly
-  when that write-back happens — and it happens only when pruning removed something, i.e. when the
-  list read began with a record older than twelve hours (`C17_stale_writeback_harmless`, relying on the
-  regenerated guard `writeBackOnlyIfPruned`); `C17_concurrent_lost_update` is the remaining witness
-  (property part "including concurrent attempts" stays partial for that one window). -/
+* Every function that touches the table does so inside ONE critical section per path (`accessorPaths`:
+  `addEntry`, `cleanup`, `getEntries`, `pruneEntries`), never outside the mutex, never writing under the
+  read lock, and none of them is handed an entry list computed elsewhere
+  (`tableAccessorsWithListParam = []`): what a section writes comes from what it read itself.
+* `addEntry` (hence `throttle`) reads the entry list and writes the extended list in one write-locked
+  section.
+* `CheckBruteforce` reads the list under the read lock (detection) and, on some paths, later enters one
+  write-locked section that reads the list again, filters it and stores it (`pruneEntries`) — the
+  read–filter–write is a single section.  (Before the repair /repo 8fa3850 the list read in the first
+  section was written back in the second; see the last `example` of this section.)
+
+`C17_concurrent_no_record_lost` turns this into a statement about every interleaving of any number of
+concurrent failures and checks; `C17_block_iff_window` (section 2, which covers the `par` step) therefore
+speaks about concurrent attempts as long as `C17_atomicity_facts` holds. -/
 
 /-- **The locking facts the sequential model relies on**, recomputed from the source on every run. -/
 theorem C17_atomicity_facts :
-    tableAccessors = ["addEntry", "cleanup", "getEntries", "setEntries"] ∧
-    (wellLocked getEntriesPaths ∧ wellLocked setEntriesPaths ∧ wellLocked addEntryPaths ∧
-      wellLocked cleanupPaths ∧ wellLocked throttlePaths ∧ wellLocked checkBruteforcePaths) = true ∧
-    -- recording a failure: the list is read and the extended list written in one write-locked section
-    addEntryPaths = [[("W", ["read", "write"])]] ∧ throttlePaths = addEntryPaths ∧
-    (getEntriesPaths.all (·.length = 1) ∧ setEntriesPaths.all (·.length = 1) ∧
-      cleanupPaths.all (·.length = 1)) = true ∧
-    -- CheckBruteforce: a read-locked read first, then at most one separate write-locked section …
-    checkBruteforcePaths.all (fun p => p.head? = some ("R", ["read"]) ∧ p.length ≤ 2) = true ∧
-    -- … which is entered only when pruning changed the list
-    writeBackOnlyIfPruned = true := by decide
+    AddEntryAtomic ∧ CheckSelfContained ∧
+    -- every function touching the table: under the mutex, writes under the write lock, one section per path
+    (accessorPaths.map (·.1) = tableAccessors ∧
+      accessorPaths.all (fun ap => wellLocked ap.2 && ap.2.all (·.length = 1)) = true) ∧
+    (wellLocked addEntryPaths ∧ wellLocked cleanupPaths ∧ wellLocked throttlePaths ∧
+      wellLocked checkBruteforcePaths) = true ∧
+    throttlePaths = addEntryPaths ∧ cleanupPaths.all (·.length = 1) = true ∧
+    -- CheckBruteforce: a read-locked read first, then at most one further (write-locked) section
+    checkBruteforcePaths.all (fun p => p.head? = some ("R", ["read"]) ∧ p.length ≤ 2) = true := by
+  unfold AddEntryAtomic CheckSelfContained
+  decide
 
-/-- `CheckBruteforce` really is split (so the caveat below is about the code as it is). -/
-example : checkBruteforcePaths.any (fun p => p.length = 2 ∧ (p.getLast?.map (·.1)) = some "W") = true := by decide
+/-- **No interleaving loses a record.**  Any number of goroutines are inside `addEntry` (job
+`record e`) or `CheckBruteforce` (job `prune now`) for the same key/kind, each following one of the
+regenerated paths of its method; the scheduler runs their critical sections in any order (`schedule` is
+arbitrary).  At every moment the entry list is the full history — the initial list followed by every
+failure recorded so far, in recording order (`log`) — minus a prefix of entries that some checking
+goroutine found older than twelve hours; and every recording goroutine that has finished is in the log. -/
+theorem C17_concurrent_no_record_lost (init : List Int) (ts : List (Job × Prog)) (hw : WellFormed ts)
+    (schedule : List Nat) :
+    (∃ d, d ≤ (init ++ (Conc.after init ts schedule).log).length ∧
+      (Conc.after init ts schedule).shared = (init ++ (Conc.after init ts schedule).log).drop d ∧
+      ∀ x ∈ (init ++ (Conc.after init ts schedule).log).take d,
+        ∃ now, Job.prune now ∈ ts.map (·.1) ∧ now - x > 43200000000000) ∧
+    (Conc.after init ts schedule).log.length + (Conc.after init ts schedule).pendingRec
+      = ts.countP (·.1.isRecord) ∧
+    ∀ x ∈ (Conc.after init ts schedule).log, Job.record x ∈ ts.map (·.1) := by
+  have h : ConcInv init _ _ (Conc.after init ts schedule) :=
+    (ConcInv.start C17_atomicity_facts.1 C17_atomicity_facts.2.1 init ts hw).run schedule
+  have hage : (maxBruteforceAge : Int) = 43200000000000 := by decide
+  refine ⟨?_, h.cnt, h.logmem⟩
+  obtain ⟨d, h1, h2, h3⟩ := h.sh
+  exact ⟨d, h1, h2, fun x hx => by obtain ⟨now, hn, ho⟩ := h3 x hx; exact ⟨now, hn, by rw [← hage]; exact ho⟩⟩
 
-/-- **Every interleaving records every failure.**  `n` goroutines are inside `addEntry` for the same
-key/kind, each following one of the regenerated paths; the scheduler runs their critical sections in any
-order (`schedule`, arbitrary, may name finished or non-existent threads).  Once all have finished, the
-entry list is the initial one followed by `n` new records: none is lost, none is duplicated. -/
-theorem C17_concurrent_failures_all_recorded (init : List Int) (now : Int) (progs : List Prog)
-    (hp : ∀ p ∈ progs, p ∈ addEntryProgs) (schedule : List Nat)
-    (hdone : ((Conc.start init now progs).run schedule).pending = 0) :
-    ((Conc.start init now progs).run schedule).shared = init ++ List.replicate progs.length now := by
-  have h := (ConcInv.start C17_atomicity_facts.2.2.1 init now progs hp).run schedule
-  obtain ⟨_, _, hsh⟩ := h
-  rw [hsh, hdone]; simp
+theorem Conc.pendingRec_le_pending (c : Conc) : c.pendingRec ≤ c.pending := by
+  unfold Conc.pendingRec Conc.pending
+  apply List.countP_mono_left
+  intro t _ h
+  simp only [Bool.and_eq_true] at h
+  exact h.2
 
-/-- … which is what the sequential model does for `n` `throttle` calls one after the other (and for its
-`par` step): every interleaving is equivalent to a sequential order. -/
+/-- **Concurrent failures all count.**  When all goroutines have finished, and none of the failures was
+already older than twelve hours for one of the checks running alongside, the entry list ends with all of
+them: as many new records as failures, after what is left of the initial list. -/
+theorem C17_concurrent_failures_all_recorded (init : List Int) (ts : List (Job × Prog)) (hw : WellFormed ts)
+    (schedule : List Nat)
+    (hyoung : ∀ e now, Job.record e ∈ ts.map (·.1) → Job.prune now ∈ ts.map (·.1) → now - e ≤ 43200000000000)
+    (hdone : (Conc.after init ts schedule).pending = 0) :
+    (Conc.after init ts schedule).log.length = ts.countP (·.1.isRecord) ∧
+    ∃ d, d ≤ init.length ∧
+      (Conc.after init ts schedule).shared = init.drop d ++ (Conc.after init ts schedule).log := by
+  generalize hc : Conc.after init ts schedule = c at hdone ⊢
+  obtain ⟨⟨d, h1, h2, h3⟩, hcnt, hlog⟩ := C17_concurrent_no_record_lost init ts hw schedule
+  rw [hc] at h1 h2 h3 hcnt hlog
+  have hp : c.pendingRec = 0 := by
+    have := Conc.pendingRec_le_pending c
+    omega
+  refine ⟨by omega, d, ?_, ?_⟩
+  · -- a dropped entry is older than twelve hours for a checker; a recorded one is not
+    apply Classical.byContradiction
+    intro hd
+    have hd' : init.length < d := by omega
+    have hlen : 0 < c.log.length := by simp only [List.length_append] at h1; omega
+    obtain ⟨x, rest, hx⟩ : ∃ x rest, c.log = x :: rest := by
+      cases hl : c.log with
+      | nil => rw [hl] at hlen; simp at hlen
+      | cons x rest => exact ⟨x, rest, rfl⟩
+    have hmem : x ∈ (init ++ c.log).take d := by
+      rw [List.take_append, hx]
+      apply List.mem_append_right
+      have : d - init.length = (d - init.length - 1) + 1 := by omega
+      rw [this, List.take_succ_cons]
+      exact List.mem_cons_self
+    obtain ⟨now, hn, ho⟩ := h3 x hmem
+    have := hyoung x now (hlog x (by rw [hx]; exact List.mem_cons_self)) hn
+    omega
+  · rw [h2]
+    by_cases hd : d ≤ init.length
+    · exact List.drop_append_of_le_length hd
+    · exfalso
+      apply hd
+      apply Classical.byContradiction
+      intro hd2
+      have hd' : init.length < d := by omega
+      have hlen : 0 < c.log.length := by simp only [List.length_append] at h1; omega
+      obtain ⟨x, rest, hx⟩ : ∃ x rest, c.log = x :: rest := by
+        cases hl : c.log with
+        | nil => rw [hl] at hlen; simp at hlen
+        | cons x rest => exact ⟨x, rest, rfl⟩
+      have hmem : x ∈ (init ++ c.log).take d := by
+        rw [List.take_append, hx]
+        apply List.mem_append_right
+        have : d - init.length = (d - init.length - 1) + 1 := by omega
+        rw [this, List.take_succ_cons]
+        exact List.mem_cons_self
+      obtain ⟨now, hn, ho⟩ := h3 x hmem
+      have := hyoung x now (hlog x (by rw [hx]; exact List.mem_cons_self)) hn
+      omega
+
+/-- Failures only, all with the captured time `now`: every interleaving ends in the state the
+sequential model reaches by `n` `throttle` steps (and by its `par` step). -/
 theorem C17_concurrent_equals_sequential (st : State) (now : Int) (k : Key) (a : Action)
-    (progs : List Prog) (hp : ∀ p ∈ progs, p ∈ addEntryProgs) (schedule : List Nat)
-    (hdone : ((Conc.start (st k a) now progs).run schedule).pending = 0) :
-    ((Conc.start (st k a) now progs).run schedule).shared = throttleN st now k a progs.length k a := by
-  rw [C17_concurrent_failures_all_recorded (st k a) now progs hp schedule hdone, throttleN_at]
+    (ts : List (Job × Prog)) (hw : WellFormed ts) (hrec : ∀ jp ∈ ts, jp.1 = Job.record now)
+    (schedule : List Nat) (hdone : (Conc.after (st k a) ts schedule).pending = 0) :
+    (Conc.after (st k a) ts schedule).shared = throttleN st now k a ts.length k a := by
+  have hnoprune : ∀ t, Job.prune t ∉ ts.map (·.1) := by
+    intro t ht
+    obtain ⟨jp, hjp, he⟩ := List.mem_map.mp ht
+    rw [hrec jp hjp] at he; cases he
+  obtain ⟨hlen, d, hd, hsh⟩ := C17_concurrent_failures_all_recorded (st k a) ts hw schedule
+    (fun e t _ hp => absurd hp (hnoprune t)) hdone
+  obtain ⟨⟨d', h1, h2, h3⟩, _, hlog⟩ := C17_concurrent_no_record_lost (st k a) ts hw schedule
+  -- nothing can have been dropped: there is no checker
+  have hd0 : (st k a ++ (Conc.after (st k a) ts schedule).log).take d' = [] := by
+    apply List.eq_nil_iff_forall_not_mem.mpr
+    intro x hx
+    obtain ⟨t, ht, _⟩ := h3 x hx
+    exact hnoprune t ht
+  have hall : (Conc.after (st k a) ts schedule).shared
+      = st k a ++ (Conc.after (st k a) ts schedule).log := by
+    rw [h2]
+    have := List.take_append_drop d' (st k a ++ (Conc.after (st k a) ts schedule).log)
+    rw [hd0] at this
+    simpa using this
+  have hcount : ts.countP (·.1.isRecord) = ts.length := by
+    apply List.countP_eq_length.mpr
+    intro jp hjp; rw [hrec jp hjp]; rfl
+  have hrep : (Conc.after (st k a) ts schedule).log = List.replicate ts.length now := by
+    apply List.eq_replicate_iff.mpr
+    refine ⟨by rw [hlen, hcount], ?_⟩
+    intro x hx
+    obtain ⟨jp, hjp, he⟩ := List.mem_map.mp (hlog x hx)
+    rw [hrec jp hjp] at he
+    cases he; rfl
+  rw [hall, hrep, throttleN_at]
 
-/-- Non-vacuity: three threads, a schedule under which all finish. -/
-example : ((Conc.start [1, 2] 7 (List.replicate 3 [[Acc.read, Acc.write]])).run [2, 0, 2, 1]).pending = 0 ∧
-    ((Conc.start [1, 2] 7 (List.replicate 3 [[Acc.read, Acc.write]])).run [2, 0, 2, 1]).shared = [1, 2, 7, 7, 7] := by
+private def T0 : Int := 43140000000000     -- 11 h 59 min
+private def T1 : Int := 43260000000000     -- 12 h 01 min
+
+/-- Non-vacuity, on the programs the source has now: the list holds one record of time 0; a connection was
+checked at `T0` and fails (records `T0`) while another one is checked at `T1`, for which the old record
+has expired.  Under the schedule *check reads — failure recorded — check prunes* the failure survives. -/
+example : WellFormed [(Job.prune T1, [[Acc.read], [Acc.read, Acc.write]]), (Job.record T0, [[Acc.read, Acc.write]])] ∧
+    ((Conc.start [0] [(Job.prune T1, [[Acc.read], [Acc.read, Acc.write]]),
+        (Job.record T0, [[Acc.read, Acc.write]])]).run [0, 1, 0]).shared = [T0] := by
   decide
 
-/-- The theorem is about the sections, not about the accesses: the same accesses in two sections
-(read under one lock, write under the next) lose a record under the schedule read/read/write/write. -/
-example : ((Conc.start [1, 2] 7 (List.replicate 2 [[Acc.read], [Acc.write]])).run [0, 1, 0, 1]).pending = 0 ∧
-    ((Conc.start [1, 2] 7 (List.replicate 2 [[Acc.read], [Acc.write]])).run [0, 1, 0, 1]).shared = [1, 2, 7] := by
+/-- The same goroutines with the *split* program the source had before /repo 8fa3850 (the second section
+writes what the first one read): the failure is lost.  The theorems above are about the sections. -/
+example : ((Conc.start [0] [(Job.prune T1, [[Acc.read], [Acc.write]]),
+        (Job.record T0, [[Acc.read, Acc.write]])]).run [0, 1, 0]).shared = [] ∧
+    ((Conc.start [0] [(Job.prune T1, [[Acc.read], [Acc.write]]),
+        (Job.record T0, [[Acc.read, Acc.write]])]).run [0, 1, 0]).log = [T0] := by
   decide
 
-/-- `CheckBruteforce` without interference is its two sections one after the other. -/
-theorem C17_check_is_read_then_writeBack (st : State) (now : Int) (k : Key) (a : Action) :
-    (check st now k a).1 = writeBack st now k a (st k a) := by
-  have hg : writeBackOnlyIfPruned = true := C17_atomicity_facts.2.2.2.2.2.2
-  unfold check writeBack
-  by_cases h0 : st k a = []
-  · simp [h0]
-  · by_cases hb : blocked now (st k a) = true
-    · simp [h0, hb]
-    · simp only [h0, hb, hg, Bool.true_and, false_or, if_false, Bool.false_eq_true]
-      by_cases hl : (filterEntries now (st k a)).length = (st k a).length
-      · obtain ⟨m, h1, h2, _, _⟩ := filterEntries_eq_drop now (st k a)
-        have hm : m = 0 := by
-          have : (filterEntries now (st k a)).length = (st k a).length - m := by rw [h1]; simp
-          have hpos : 0 < (st k a).length := List.length_pos_iff.mpr h0
-          omega
-        have heq : filterEntries now (st k a) = st k a := by rw [h1, hm]; simp
-        simp only [hl, beq_self_eq_true, if_true]
-        funext k' a'
-        simp only [State.set, heq]
-        split
-        · rename_i h; rw [h.1, h.2]
-        · rfl
-      · simp [hl]
-
-/-- **A stale write-back needs a record older than twelve hours.**  Whatever happened to the table
-between the read and the write-back section of `CheckBruteforce` (`st` is arbitrary — e.g. concurrent
-failures were appended), the write-back leaves it untouched unless pruning shortened the list that was
-read.  Relies on the regenerated guard `writeBackOnlyIfPruned`. -/
-theorem C17_stale_writeback_harmless (st : State) (now : Int) (k : Key) (a : Action) (readEarlier : List Int)
-    (hyoung : filterEntries now readEarlier = readEarlier) :
-    writeBack st now k a readEarlier = st := by
-  have hg : writeBackOnlyIfPruned = true := C17_atomicity_facts.2.2.2.2.2.2
-  unfold writeBack
-  simp [hg, hyoung]
-
-/-- In particular, after one connection's check has passed at `now` (which prunes), further checks of
-the same key/kind at that time change nothing, however many of the concurrent failures they happen to
-see: this is why the `par` step of the model ignores the checks that run alongside the failures. -/
-theorem C17_concurrent_checks_harmless (st : State) (now : Int) (k : Key) (a : Action) (es : List Int) (j : Nat) :
-    writeBack st now k a (filterEntries now es ++ List.replicate j now) = st :=
-  C17_stale_writeback_harmless st now k a _ (filterEntries_after_check now es j)
-
-/-- Witness of what remains: entry list `[old]` (older than 12 h); thread A reads it, thread B
-records a failure, A writes back the pruned (empty) list: B's failure is gone. -/
-theorem C17_concurrent_lost_update :
-    let k := throttleKey addrA
-    let old : Int := 0
-    let now : Int := 13 * 3600 * 1000000000
-    let st0 : State := State.empty.set k "X" [old]
-    let readA := st0 k "X"
-    let st1 := (throttle st0 now k "X").1          -- B: check passed earlier, now throttles
-    let st2 := writeBack st1 now k "X" readA        -- A: stale write-back
-    st1 k "X" = [old, now] ∧ st2 k "X" = [] := by
-  decide +kernel
+/-- … and recording in two sections (read under one lock, write under the next) loses a record under the
+schedule read/read/write/write. -/
+example : ((Conc.start [1, 2] (List.replicate 2 (Job.record 7, [[Acc.read], [Acc.write]]))).run [0, 1, 0, 1]).pending = 0 ∧
+    ((Conc.start [1, 2] (List.replicate 2 (Job.record 7, [[Acc.read], [Acc.write]]))).run [0, 1, 0, 1]).shared = [1, 2, 7] := by
+  decide
 
 /-- Non-vacuity of the `par` step inside `C17_block_iff_window`: seven failures, then five at once —
 all twelve are recorded, the address is blocked, the delays keep growing. -/
-example : Monotone 0 ((tenFailures.take 7) ++ [.par (s 7) addrA "HelloResume" 5, .attempt (s 8) addrA "HelloResume" true]) ∧
-    (run State.empty ((tenFailures.take 7) ++ [.par (s 7) addrA "HelloResume" 5,
+example : Monotone 0 ((tenFailures.take 7) ++ [.par (s 7) addrA "HelloResume" 5 0, .attempt (s 8) addrA "HelloResume" true]) ∧
+    (run State.empty ((tenFailures.take 7) ++ [.par (s 7) addrA "HelloResume" 5 0,
         .attempt (s 8) addrA "HelloResume" true])).2.drop 7
       = [.rest 5 12 true [12800000000, 25000000000, 25000000000, 25000000000, 25000000000], .refused] := by
+  decide +kernel
+
+/-- … and with the window the repair is about: one record at time 0, three connections checked at
+11 h 59 min fail while checks of 12 h 01 min run alongside: at rest the old record is gone, the three new
+ones are there. -/
+example : (run State.empty [.attempt 0 addrA "X" true, .par T0 addrA "X" 3 120000000000]).2
+      = [.delayed 100000000, .rest 3 3 false [200000000, 400000000, 800000000]] := by
   decide +kernel
 
 end SigModel.Throttle
